@@ -165,6 +165,34 @@ def fieldPhraseEscOpd (f body : Str) (x : Sfx) : Opd :=
   ⟨f ++ ':' :: '"' :: (escQuoted body ++ '"' :: x.text),
     .leaf (.literal (some f) body .double x.slopVal x.isPfx), 1⟩
 
+/-- `*` (all documents) as an operand -/
+def allOpd : Opd := ⟨['*'], .leaf .all, 1⟩
+
+/-- `name:*` (the field exists) as an operand -/
+def existsOpd (f : Str) : Opd := ⟨f ++ [':', '*'], .leaf (.exists f), 1⟩
+
+/-- the sign of an elastic range: 0 `>=`, 1 `<=`, 2 `<`, 3 `>` -/
+def signText : Nat → Str
+  | 0 => ['>', '=']
+  | 1 => ['<', '=']
+  | 2 => ['<']
+  | _ => ['>']
+
+def signBounds (k : Nat) (w : Str) : Bound × Bound :=
+  match k with
+  | 0 => (.incl w, .unbounded)
+  | 1 => (.unbounded, .incl w)
+  | 2 => (.unbounded, .excl w)
+  | _ => (.excl w, .unbounded)
+
+/-- `>=a` / `<=a` / `<a` / `>a` as an operand -/
+def elasticOpd (k : Nat) (w : Str) : Opd :=
+  ⟨signText k ++ w, .leaf (.range none (signBounds k w).1 (signBounds k w).2), 1⟩
+
+/-- `name:>=a` etc. as an operand -/
+def fieldElasticOpd (f : Str) (k : Nat) (w : Str) : Opd :=
+  ⟨f ++ ':' :: (signText k ++ w), .leaf (.range (some f) (signBounds k w).1 (signBounds k w).2), 1⟩
+
 /-- `NOT x` (`k + 1` blanks after the keyword) as an operand -/
 def notOpd (k : Nat) (o : Opd) : Opd :=
   ⟨'N' :: 'O' :: 'T' :: ' ' :: (spaces k ++ o.text), o.leaf.unary .mustNot, o.cost + 1⟩
